@@ -111,7 +111,11 @@ def _path_worker(task):
         else:
             rep = V.verify_lemma(key, tier=tier, start=prefix, one_path=True)
         j = rep.to_json()
-        j["alts"] = rep.alts
+        alts = rep.alts
+        # counter-models may hold interpreter objects (regex stubs, closures): make the report plain JSON before it crosses the
+        # process boundary - an unpicklable model must never turn a refutation into a checker crash
+        j = json.loads(json.dumps(j, default=lambda o: f"<{type(o).__name__}>"))
+        j["alts"] = alts
         return (kind, key, j)
     except Exception:
         return (kind, key, {"function": key, "status": "crash", "traceback": traceback.format_exc(), "obligations": [], "vcs": 0, "vcs_discharged": 0, "alts": []})
@@ -260,7 +264,12 @@ def main(argv=None) -> int:
     extras = [] if a.only else list(getattr(plan, "EXTRA", []))
     ex = cf.ProcessPoolExecutor(max_workers=max(1, len(extras)), mp_context=mp.get_context("fork")) if extras else None
     futs = [(fn, ex.submit(fn, tier, seed)) for fn in extras]
-    reports = run_pool(jobs, a.jobs)
+    try:
+        reports = run_pool(jobs, a.jobs)
+    except Exception:
+        # the deductive part failed as a whole (never expected): report it as a crash and still run the bounded tier
+        tb = traceback.format_exc()
+        reports = [{"function": k, "status": "crash", "traceback": tb, "obligations": [], "vcs": 0, "vcs_discharged": 0} for _, k, *_ in jobs]
     # second chance: a verdict left open only by solver budgets (unknown / timeout under load) is re-run with four times the
     # budget and few workers, so that a busy machine does not turn a proof into "undecided"
     def _only_budget(r):
